@@ -188,8 +188,11 @@ def eval_case(case, rng):
     if rng.random() < 0.3:
         mapargs = [] if rng.random() < 0.5 else [f"443:{tcpcap.map_target(rng)}"]
         extra = ["-m"] + mapargs
+    meta = case["i"] % 5 == 3       # a fifth of the cases with -a: handshake material is exported too, and its packets have capture times as well
+    if meta:
+        extra = extra + ["-a"]
     res, files, argv = e2e.run_capture(scene.capture(items), scene.keylog_text([fl], rng), extra)
-    out = {"cls": [fl.kind, fl.label.split("-")[1], fl.segkind, style, "v6" if fl.ep.v6 else "v4", "map" if mapargs is not None else ""],
+    out = {"cls": [fl.kind, fl.label.split("-")[1], fl.segkind, style, "v6" if fl.ep.v6 else "v4", "map" if mapargs is not None else "", "-a" if meta else ""],
            "tags": [f"ts:{style}", f"seg:{fl.segkind}", f"proto:{fl.kind}"],
            "sample": {"case": case["id"], "flow": fl.label, "endpoints": fl.ep.describe(), "macs": fl.ep.cmac.hex() + "/" + fl.ep.smac.hex(), "segmentation": fl.segkind,
                       "timestamps": [it.ts for it in items][:6], "args": extra}}
@@ -197,7 +200,24 @@ def eval_case(case, rng):
     if fail:
         return dict(out, v="inconclusive" if fail.startswith("INCONCLUSIVE") else "violated", msg=fail, files=files)
     an = outparse.Analysis(res.out)
-    msgs, n = (check_quic_flow if quic else check_tls_flow)(an, fl, mapargs)
+    if meta:
+        # with -a the stream also holds handshake bytes, which the provenance oracle does not model; what still must hold for EVERY exported packet: its
+        # timestamp is the capture time of an input packet of the connection - of the same direction when it carries payload
+        kc, ks = gen.flow_keys(fl, mapargs)
+        times = {"c": {it.ts for it in items if it.dir == "c"}, "s": {it.ts for it in items if it.dir == "s"}}
+        msgs, n = [], 0
+        for p in an.pkts:
+            key = (p.src, p.sport, p.dst, p.dport)
+            if key not in (kc, ks):
+                continue
+            d = "c" if key == kc else "s"
+            n += 1
+            ok = p.ts in times[d] if p.payload else p.ts in (times["c"] | times["s"])
+            if not ok and not msgs:
+                msgs.append(f"-a export: {'client' if d == 'c' else 'server'} packet with {len(p.payload)} payload bytes has timestamp {p.ts}, which is not the capture time of any "
+                            f"{'input packet of that direction' if p.payload else 'input packet'} (capture runs from {min(times['c'] | times['s'])} to {max(times['c'] | times['s'])})")
+    else:
+        msgs, n = (check_quic_flow if quic else check_tls_flow)(an, fl, mapargs)
     mine = set(gen.flow_keys(fl, mapargs))
     stray = [p for p in an.pkts if (p.src, p.sport, p.dst, p.dport) not in mine]
     if stray:
